@@ -13,7 +13,7 @@ import (
 func init() {
 	register(&Check{
 		ID: "C07", Level: "exploration", QuickSecs: 150, ThoroughSecs: 1500,
-		Rule:        "rule-reference graphs on 1..3 rules; each rule is [alt0 /] alt1 [/ alt2] with alt1 = prefix ref-item ['a'] where prefix ranges over {none,'a',\"\",'a'?,'a'*,'a'+,&'a',!'a',[],[^a],&{true},#{},x:\"\",(\"\"/'a'),('a'/\"\"),%{l},N,('a'?)+,N+,('a'? {act}),(N {act})} (N <- 'z'? a nullable rule), ref-item over {R,R?,R*,R+,&R,!R,x:R,(R 'a'),(R/'a'),R{act},('a'/R), %{l} //{l} R, (N R)?,(N R)*,(N R 'a')+,&(N R),!(N R),x:(N R),!'a' / N R 'a',&'a' / R 'a',&{} / R 'a', recovery into N R, ('a' / %{l}) 'a' //{l} R, (%{l} 'a') //{l} R, (N %{l} 'a') //{l} N R, (%{l} R) //{l} \"\", (%{l} R 'a') //{l} 'a'?, (('a' / %{l}) R) //{l} N} and alt0 a nullable alternative that can fail (&!., !'a', !{}, &'a' \"\") for every target rule R (1 rule: complete product; 2 rules: complete sets for the first rule x reduced sets (thorough: complete) for the second; 3 rules: every 3-cycle and chord over 6 prefix kinds; mutually dependent nullability: 5 nullable prefix rules that refer back to the recursive rule x 4 recursive rules x both name orders and definition orders, also through a third rule); each grammar is analysed by the real front-end + builder.PrepareGrammar (accepted / 'contains left recursion') and compared with (i) ground truth within bounds: the reference interpreter run on all inputs over {a,b} up to L=2 reports whether some rule is re-entered at an offset where it is already active, (ii) an independent static analysis (least-fixpoint nullability, first-call sets descending into & and !). accepted + dynamic witness = miss; rejected + no static cycle + no witness = false rejection. For every miss and a slice of the accepted grammars the real generated parser is run (must stay within the expression budget whenever the reference terminates). Non-trivial = grammars with at least one cycle in the static analysis or a nullable prefix before a reference.",
+		Rule:        "rule-reference graphs on 1..3 rules; each rule is [alt0 /] alt1 [/ alt2] with alt1 = prefix ref-item ['a'] where prefix ranges over {none,'a',\"\",'a'?,'a'*,'a'+,&'a',!'a',[],[^a],&{true},#{},x:\"\",(\"\"/'a'),('a'/\"\"),%{l},N,('a'?)+,N+,('a'? {act}),(N {act})} (N <- 'z'? a nullable rule), ref-item over {R,R?,R*,R+,&R,!R,x:R,(R 'a'),(R/'a'),R{act},('a'/R), %{l} //{l} R, (N R)?,(N R)*,(N R 'a')+,&(N R),!(N R),x:(N R),!'a' / N R 'a',&'a' / R 'a',&{} / R 'a', recovery into N R, ('a' / %{l}) 'a' //{l} R, (%{l} 'a') //{l} R, (N %{l} 'a') //{l} N R, (%{l} R) //{l} \"\", (%{l} R 'a') //{l} 'a'?, (('a' / %{l}) R) //{l} N} and alt0 a nullable alternative that can fail (&!., !'a', !{}, &'a' \"\") for every target rule R (1 rule: complete product; 2 rules: complete sets for the first rule x reduced sets (thorough: complete) for the second; 3 rules: every 3-cycle and chord over 6 prefix kinds; mutually dependent nullability: 5 nullable prefix rules that refer back to the recursive rule x 4 recursive rules x both name orders and definition orders, also through a third rule); each grammar is analysed by the real front-end + builder.PrepareGrammar (accepted / 'contains left recursion') and compared with (i) ground truth within bounds: the reference interpreter run on all inputs over {a,b} up to L=2 reports whether some rule is re-entered at an offset where it is already active, (ii) an independent static analysis (least-fixpoint nullability, first-call sets descending into & and !). accepted + dynamic witness = miss; rejected + no static cycle + no witness = false rejection. For every miss and a slice of the accepted grammars the real generated parser is run (must stay within the expression budget whenever the reference terminates). Non-trivial = grammars with at least one cycle in the static analysis or a nullable prefix before a reference. Every rule is tried as Entrypoint for the dynamic witness; rules unreachable from the first rule; components without a leader (two / three rules that each reach themselves and each other); for every grammar of the small families and every 8th of the large ones the verdict is the BUILDER's (hook build mode).",
 		Assumptions: []string{"hook analyze mode = ParseReader + builder.PrepareGrammar of the working tree", "recovery operators are analysed conservatively by both sides; no false-rejection alarm is raised for grammars with throw/recover"},
 		Run:         runC07,
 	})
